@@ -1,15 +1,537 @@
-//! C17: seeded whole-operation interleavings of real OS threads sharing key objects.
-//! (filled in by sched_impl below)
+//! C17 tier 1: seeded whole-operation interleavings of real OS threads that share key objects.
+//!
+//! A baton (mutex + condvar) makes exactly one thread runnable; at every operation boundary
+//! the seeded scheduler (uniform random or PCT-style priorities) decides who runs next, so an
+//! episode is a pure function of its spec. Every source of randomness is a per-(thread, op)
+//! seeded stream, hence each operation's result in the interleaved run must be bit-identical
+//! to (1) the same script run alone on fresh copies of the keys and (2) the script with all
+//! failing operations removed (failed operations never alter a key).
+
+use std::sync::{Arc, Condvar, Mutex};
 
 use serde::{Deserialize, Serialize};
 
+use crate::backend::{Backend, Bk, Claims, Foot, FootKind, KeyH, Kind, Out, PayloadKind, Purp, PwParams, VSpec, backend};
+use crate::faults::{self, BlobFault, Delivered, TokFault};
+use crate::prng::{Rng, mix};
+use crate::rngsvc::{self, RngSpec};
 use crate::world::World;
 
 #[derive(Clone, Debug, PartialEq, Serialize, Deserialize)]
-pub struct ThreadSpec {
-    pub placeholder: u8,
+pub enum TOp {
+    Encrypt { len: usize },
+    Sign { len: usize },
+    /// decrypt / verify the last token this thread produced
+    DecryptOwn,
+    VerifyOwn,
+    /// the same with a corrupted copy (must fail)
+    DecryptBad { byte: usize },
+    VerifyBad { byte: usize },
+    /// decrypt / verify a token made before the episode started
+    DecryptShared,
+    VerifyShared,
+    WrapPie,
+    UnwrapPieOwn,
+    UnwrapPieBad { byte: usize },
+    WrapPw,
+    UnwrapPwOwn,
+    UnwrapPwWrongPassword,
+    SealKey,
+    UnsealKeyOwn,
+    UnsealKeyBad { byte: usize },
+    Id { kind: Kind },
+    Expose { kind: Kind },
+    /// replace this thread's handle of the key by a clone of it (the previous handle is dropped here)
+    CloneKey { kind: Kind },
+    /// clone a key and hand the clone to another thread, which drops it
+    HandOff { kind: Kind, to: usize },
+    /// seal while this thread's random source fails
+    EncryptRngFail,
+    ParseGarbageKey { kind: Kind },
 }
 
-pub fn run_threads(w: &mut World, _spec: &ThreadSpec) {
-    w.stats.bump("skipped:threads-not-implemented");
+impl TOp {
+    /// operations that are expected to fail (removed by the "no failures" oracle)
+    fn is_failing(&self) -> bool {
+        matches!(
+            self,
+            TOp::DecryptBad { .. } | TOp::VerifyBad { .. } | TOp::UnwrapPieBad { .. } | TOp::UnwrapPwWrongPassword | TOp::UnsealKeyBad { .. } | TOp::EncryptRngFail | TOp::ParseGarbageKey { .. }
+        )
+    }
+}
+
+#[derive(Clone, Debug, PartialEq, Serialize, Deserialize)]
+pub enum SchedKind {
+    Random,
+    /// PCT-style: random priorities, `depth` priority change points
+    Pct { depth: u32 },
+    /// round robin (a baseline schedule)
+    RoundRobin,
+}
+
+#[derive(Clone, Debug, PartialEq, Serialize, Deserialize)]
+pub struct ThreadSpec {
+    pub node: usize,
+    pub local: usize,
+    pub secret: usize,
+    pub public: usize,
+    pub pke_public: usize,
+    pub pke_secret: usize,
+    pub scripts: Vec<Vec<TOp>>,
+    pub sched: SchedKind,
+    pub seed: u64,
+}
+
+#[derive(Clone)]
+struct Keys {
+    local: KeyH,
+    secret: KeyH,
+    public: KeyH,
+    pke_public: KeyH,
+    pke_secret: KeyH,
+}
+
+impl Keys {
+    fn get(&self, k: Kind) -> &KeyH {
+        match k {
+            Kind::Local => &self.local,
+            Kind::Secret => &self.secret,
+            Kind::Public => &self.public,
+            Kind::PkePublic => &self.pke_public,
+            Kind::PkeSecret => &self.pke_secret,
+        }
+    }
+    fn set(&mut self, k: Kind, h: KeyH) {
+        match k {
+            Kind::Local => self.local = h,
+            Kind::Secret => self.secret = h,
+            Kind::Public => self.public = h,
+            Kind::PkePublic => self.pke_public = h,
+            Kind::PkeSecret => self.pke_secret = h,
+        }
+    }
+}
+
+struct Shared {
+    tok_local: String,
+    tok_public: String,
+}
+
+#[derive(Default)]
+struct ThreadState {
+    last_local: Option<String>,
+    last_public: Option<String>,
+    last_pie: Option<String>,
+    last_pw: Option<String>,
+    last_seal: Option<String>,
+}
+
+fn corrupt_token(t: &str, byte: usize) -> String {
+    let mut d = Delivered { text: t.to_string(), aad: vec![] };
+    let len = faults::TokParts::parse(t).map(|p| p.payload.len()).unwrap_or(1).max(1);
+    faults::apply_tok_fault(&mut d, &TokFault::FlipPayload { byte: byte % len, bit: (byte % 8) as u8 });
+    d.text
+}
+
+fn corrupt_blob(t: &str, byte: usize) -> String {
+    let mut s = t.to_string();
+    let len = faults::split_paserk(t).map(|p| p.1.len()).unwrap_or(1).max(1);
+    faults::apply_blob_fault(&mut s, &BlobFault::Flip { byte: byte % len, bit: (byte % 8) as u8 });
+    s
+}
+
+fn res<T>(o: &Out<T>, ok: impl FnOnce(&T) -> String) -> String {
+    match o {
+        Out::Ok(t) => format!("ok:{}", ok(t)),
+        Out::Err(e) => format!("err:{}", e.tag()),
+        Out::Panic(p) => format!("panic:{p}"),
+    }
+}
+
+/// Execute one operation of thread `t` (index `i` in its script). Pure function of
+/// (keys, shared, thread state, op, seed) when the library has no hidden shared state.
+#[allow(clippy::too_many_arguments)]
+fn run_op(bk: Bk, keys: &mut Keys, shared: &Shared, st: &mut ThreadState, mail: &Mutex<Vec<Vec<KeyH>>>, t: usize, i: usize, op: &TOp, seed: u64, handoff_enabled: bool) -> String {
+    let be = backend(bk);
+    let f = bk.family();
+    // drop whatever other threads handed to us (the drop happens on this thread)
+    if handoff_enabled {
+        let mine: Vec<KeyH> = std::mem::take(&mut mail.lock().unwrap()[t]);
+        drop(mine);
+    }
+    let s = mix(seed, "thread-op", (t as u64) << 32 | i as u64);
+    let spec = match op {
+        TOp::EncryptRngFail => RngSpec::Fail { at: 0, partial: 3, seed: s },
+        _ => RngSpec::Prng { seed: s },
+    };
+    let msg = |len: usize| Claims::Raw(Rng::new(s ^ 0x77).bytes(len));
+    let aad: &[u8] = if bk.has_aad() { b"c17" } else { b"" };
+    rngsvc::begin(&spec);
+    let r = match op {
+        TOp::Encrypt { len } => {
+            let o = be.seal(Purp::Local, &keys.local, &msg(*len), &Foot::Unit, aad, None, false);
+            if let Out::Ok(tk) = &o {
+                st.last_local = Some(tk.clone());
+            }
+            res(&o, |t| t.clone())
+        }
+        TOp::Sign { len } => {
+            let o = be.seal(Purp::Public, &keys.secret, &msg(*len), &Foot::Unit, aad, None, false);
+            if let Out::Ok(tk) = &o {
+                st.last_public = Some(tk.clone());
+            }
+            res(&o, |t| t.clone())
+        }
+        TOp::DecryptOwn | TOp::DecryptBad { .. } | TOp::DecryptShared => {
+            let tk = match op {
+                TOp::DecryptShared => Some(shared.tok_local.clone()),
+                TOp::DecryptBad { byte } => st.last_local.as_ref().or(Some(&shared.tok_local)).map(|t| corrupt_token(t, *byte)),
+                _ => st.last_local.clone(),
+            };
+            match tk {
+                Some(tk) => res(&be.unseal(Purp::Local, &keys.local, &tk, PayloadKind::Raw, FootKind::Unit, aad, &VSpec::None, false), |(c, _)| format!("{c:?}")),
+                None => "skip".into(),
+            }
+        }
+        TOp::VerifyOwn | TOp::VerifyBad { .. } | TOp::VerifyShared => {
+            let tk = match op {
+                TOp::VerifyShared => Some(shared.tok_public.clone()),
+                TOp::VerifyBad { byte } => st.last_public.as_ref().or(Some(&shared.tok_public)).map(|t| corrupt_token(t, *byte)),
+                _ => st.last_public.clone(),
+            };
+            match tk {
+                Some(tk) => res(&be.unseal(Purp::Public, &keys.public, &tk, PayloadKind::Raw, FootKind::Unit, aad, &VSpec::None, false), |(c, _)| format!("{c:?}")),
+                None => "skip".into(),
+            }
+        }
+        TOp::WrapPie => {
+            let o = be.wrap_pie(Kind::Secret, &keys.secret, &keys.local);
+            if let Out::Ok(b) = &o {
+                st.last_pie = Some(b.clone());
+            }
+            res(&o, |t| t.clone())
+        }
+        TOp::UnwrapPieOwn | TOp::UnwrapPieBad { .. } => {
+            let b = match op {
+                TOp::UnwrapPieBad { byte } => st.last_pie.as_ref().map(|b| corrupt_blob(b, *byte)),
+                _ => st.last_pie.clone(),
+            };
+            match b {
+                Some(b) => res(&be.unwrap_pie(Kind::Secret, &b, &keys.local), |k| match be.key_raw(Kind::Secret, k) {
+                    Out::Ok(r) => hex::encode(&r[..r.len().min(48)]),
+                    o => o.class(),
+                }),
+                None => "skip".into(),
+            }
+        }
+        TOp::WrapPw => {
+            let params = if f == 1 || f == 3 { PwParams::Iter(1) } else { PwParams::Argon(8192, 1, 1) };
+            let o = be.wrap_pw(Kind::Local, &keys.local, b"c17 password", &params);
+            if let Out::Ok(b) = &o {
+                st.last_pw = Some(b.clone());
+            }
+            res(&o, |t| t.clone())
+        }
+        TOp::UnwrapPwOwn | TOp::UnwrapPwWrongPassword => match &st.last_pw {
+            Some(b) => {
+                let pw: &[u8] = if matches!(op, TOp::UnwrapPwOwn) { b"c17 password" } else { b"c17 passw0rd" };
+                res(&be.unwrap_pw(Kind::Local, b, pw), |k| match be.key_raw(Kind::Local, k) {
+                    Out::Ok(r) => hex::encode(r),
+                    o => o.class(),
+                })
+            }
+            None => "skip".into(),
+        },
+        TOp::SealKey => {
+            let o = be.seal_key(&keys.local, &keys.pke_public);
+            if let Out::Ok(b) = &o {
+                st.last_seal = Some(b.clone());
+            }
+            res(&o, |t| if f == 1 { format!("{} chars", t.len()) } else { t.clone() })
+        }
+        TOp::UnsealKeyOwn | TOp::UnsealKeyBad { .. } => {
+            let b = match op {
+                TOp::UnsealKeyBad { byte } => st.last_seal.as_ref().map(|b| corrupt_blob(b, *byte)),
+                _ => st.last_seal.clone(),
+            };
+            match b {
+                Some(b) => res(&be.unseal_key(&b, &keys.pke_secret), |k| match be.key_raw(Kind::Local, k) {
+                    Out::Ok(r) => hex::encode(r),
+                    o => o.class(),
+                }),
+                None => "skip".into(),
+            }
+        }
+        TOp::Id { kind } => res(&be.key_id(*kind, keys.get(*kind)), |(s, _)| s.clone()),
+        TOp::Expose { kind } => res(&be.key_text(*kind, keys.get(*kind)), |s| if f == 1 { format!("{} chars {}", s.len(), &s[s.len() - 16..]) } else { s.clone() }),
+        TOp::CloneKey { kind } => {
+            let o = be.key_clone(*kind, keys.get(*kind));
+            let r = res(&o, |_| "cloned".into());
+            if let Out::Ok(c) = o {
+                keys.set(*kind, c);
+            }
+            r
+        }
+        TOp::HandOff { kind, to } => {
+            let o = be.key_clone(*kind, keys.get(*kind));
+            let r = res(&o, |_| "handed-off".into());
+            if let Out::Ok(c) = o {
+                if handoff_enabled {
+                    let mut m = mail.lock().unwrap();
+                    let n = m.len();
+                    m[*to % n].push(c);
+                }
+            }
+            r
+        }
+        TOp::EncryptRngFail => {
+            if bk.rng_fallible() {
+                res(&be.seal(Purp::Local, &keys.local, &msg(10), &Foot::Unit, aad, None, false), |_| "sealed-despite-rng-failure".into())
+            } else {
+                "skip".into()
+            }
+        }
+        TOp::ParseGarbageKey { kind } => {
+            let g = format!("k{f}.{}.{}", kind.header(), faults::b64(&Rng::new(s).bytes(31)));
+            res(&be.key_parse(*kind, &g), |_| "accepted".into())
+        }
+    };
+    rngsvc::end();
+    r
+}
+
+struct Baton {
+    turn: Option<usize>,
+    done: Vec<bool>,
+}
+
+fn fresh_keys(w: &mut World, spec: &ThreadSpec, bk: Bk) -> Option<Keys> {
+    let be = backend(bk);
+    let mut get = |slot: usize| -> Option<KeyH> {
+        let rec = w.keys.get(&slot)?.clone();
+        match (&rec.alt_store, &rec.text, &rec.raw) {
+            (Some(a), _, _) => be.key_from_raw(rec.kind, a).ok(),
+            (_, Some(t), _) => be.key_parse(rec.kind, t).ok(),
+            (_, _, Some(r)) => be.key_from_raw(rec.kind, r).ok(),
+            _ => None,
+        }
+    };
+    Some(Keys { local: get(spec.local)?, secret: get(spec.secret)?, public: get(spec.public)?, pke_public: get(spec.pke_public)?, pke_secret: get(spec.pke_secret)? })
+}
+
+/// Run one script alone, on its own OS thread, on the given (fresh) keys.
+fn run_alone(bk: Bk, keys: Keys, shared: &Arc<Shared>, t: usize, script: &[TOp], seed: u64, skip_failing: bool, nthreads: usize) -> Vec<Option<String>> {
+    let shared = shared.clone();
+    let script = script.to_vec();
+    std::thread::spawn(move || {
+        let mut keys = keys;
+        let mut st = ThreadState::default();
+        let mail = Mutex::new(vec![Vec::new(); nthreads]);
+        script
+            .iter()
+            .enumerate()
+            .map(|(i, op)| if skip_failing && op.is_failing() { None } else { Some(run_op(bk, &mut keys, &shared, &mut st, &mail, t, i, op, seed, false)) })
+            .collect()
+    })
+    .join()
+    .unwrap_or_default()
+}
+
+pub fn run_threads(w: &mut World, spec: &ThreadSpec) {
+    let Some(bk) = w.node_bk(spec.node) else { return };
+    let be = backend(bk);
+    let n = spec.scripts.len();
+    if n == 0 {
+        return;
+    }
+    // shared key objects: created here (this OS thread), used on workers, dropped on yet another
+    let Some(shared_keys) = fresh_keys(w, spec, bk) else {
+        w.stats.bump("skipped:threads-missing-keys");
+        return;
+    };
+    let aad: &[u8] = if bk.has_aad() { b"c17" } else { b"" };
+    rngsvc::begin(&RngSpec::Prng { seed: spec.seed ^ 0x5ead });
+    let tok_local = be.seal(Purp::Local, &shared_keys.local, &Claims::Raw(b"shared local".to_vec()), &Foot::Unit, aad, None, false);
+    let tok_public = be.seal(Purp::Public, &shared_keys.secret, &Claims::Raw(b"shared public".to_vec()), &Foot::Unit, aad, None, false);
+    rngsvc::end();
+    let (Out::Ok(tok_local), Out::Ok(tok_public)) = (tok_local, tok_public) else {
+        w.violate("C01", "seal-failed", bk, "seal", "", "could not prepare the shared tokens of a thread episode".into());
+        return;
+    };
+    let shared = Arc::new(Shared { tok_local, tok_public });
+    let before: Vec<Out<Vec<u8>>> = Kind::ALL.iter().map(|k| be.key_raw(*k, shared_keys.get(*k))).collect();
+
+    // ---- oracle 1: every script alone on fresh copies; oracle 2: without its failing operations
+    let mut alone: Vec<Vec<Option<String>>> = Vec::new();
+    let mut clean: Vec<Vec<Option<String>>> = Vec::new();
+    for (t, script) in spec.scripts.iter().enumerate() {
+        let Some(k1) = fresh_keys(w, spec, bk) else { return };
+        let Some(k2) = fresh_keys(w, spec, bk) else { return };
+        alone.push(run_alone(bk, k1, &shared, t, script, spec.seed, false, n));
+        clean.push(run_alone(bk, k2, &shared, t, script, spec.seed, true, n));
+    }
+
+    // ---- the interleaved episode
+    let baton = Arc::new((Mutex::new(Baton { turn: None, done: vec![false; n] }), Condvar::new()));
+    let mail = Arc::new(Mutex::new(vec![Vec::<KeyH>::new(); n]));
+    let results: Arc<Mutex<Vec<Vec<String>>>> = Arc::new(Mutex::new(vec![Vec::new(); n]));
+    let mut handles = Vec::new();
+    for (t, script) in spec.scripts.iter().enumerate() {
+        let (baton, mail, results, shared, script) = (baton.clone(), mail.clone(), results.clone(), shared.clone(), script.clone());
+        let mut keys = shared_keys.clone(); // Arc clones: the *same* key objects
+        let seed = spec.seed;
+        handles.push(std::thread::spawn(move || {
+            let mut st = ThreadState::default();
+            for (i, op) in script.iter().enumerate() {
+                {
+                    let (m, cv) = &*baton;
+                    let mut g = m.lock().unwrap();
+                    while g.turn != Some(t) {
+                        g = cv.wait(g).unwrap();
+                    }
+                }
+                let r = run_op(bk, &mut keys, &shared, &mut st, &mail, t, i, op, seed, true);
+                results.lock().unwrap()[t].push(r);
+                let (m, cv) = &*baton;
+                let mut g = m.lock().unwrap();
+                g.turn = None;
+                if i + 1 == script.len() {
+                    g.done[t] = true;
+                }
+                cv.notify_all();
+            }
+            if script.is_empty() {
+                let (m, cv) = &*baton;
+                m.lock().unwrap().done[t] = true;
+                cv.notify_all();
+            }
+            // keys (Arc clones and any private clones) are dropped on this worker thread
+        }));
+    }
+    // the scheduler
+    let mut srng = Rng::new(mix(spec.seed, "schedule", 0));
+    let total_ops: usize = spec.scripts.iter().map(|s| s.len()).sum();
+    let mut prio: Vec<u64> = (0..n).map(|_| 1000 + srng.below(1000)).collect();
+    let change_points: Vec<usize> = match spec.sched {
+        SchedKind::Pct { depth } => (0..depth).map(|_| srng.usize_below(total_ops.max(1))).collect(),
+        _ => vec![],
+    };
+    let mut remaining: Vec<usize> = spec.scripts.iter().map(|s| s.len()).collect();
+    let mut trace = crate::prng::LogHash::default();
+    let mut step = 0usize;
+    let mut rr = 0usize;
+    loop {
+        let runnable: Vec<usize> = (0..n).filter(|t| remaining[*t] > 0).collect();
+        if runnable.is_empty() {
+            break;
+        }
+        let pick = match spec.sched {
+            SchedKind::Random => runnable[srng.usize_below(runnable.len())],
+            SchedKind::RoundRobin => {
+                rr += 1;
+                runnable[rr % runnable.len()]
+            }
+            SchedKind::Pct { .. } => {
+                let p = *runnable.iter().max_by_key(|t| prio[**t]).unwrap();
+                if change_points.contains(&step) {
+                    prio[p] = srng.below(1000); // demote below every initial priority
+                }
+                p
+            }
+        };
+        trace.update(&[pick as u8]);
+        {
+            let (m, cv) = &*baton;
+            let mut g = m.lock().unwrap();
+            g.turn = Some(pick);
+            cv.notify_all();
+            while g.turn.is_some() {
+                g = cv.wait(g).unwrap();
+            }
+        }
+        remaining[pick] -= 1;
+        step += 1;
+    }
+    let mut crashed = false;
+    for h in handles {
+        if h.join().is_err() {
+            crashed = true;
+        }
+    }
+    if crashed {
+        w.violate("C17", "worker-thread-panicked", bk, "threads", "", "a worker thread of the episode panicked outside a guarded library call".into());
+        return;
+    }
+    // leftover hand-offs are dropped here (a third thread)
+    drop(std::mem::take(&mut *mail.lock().unwrap()));
+
+    // ---- judgement
+    let got = results.lock().unwrap().clone();
+    w.stats.evaluations += total_ops as u64;
+    w.stats.bump(&format!("op:thread-episode:{}", bk.name()));
+    w.stats.add(&format!("op:thread-ops:{}", bk.name()), total_ops as u64);
+    w.stats.distinct.insert(format!("schedule|{}|{}|{:016x}", bk.name(), n, trace.0));
+    w.log.update_str(&format!("threads {} n={} ops={} schedule={:016x}", bk.name(), n, total_ops, trace.0));
+    for t in 0..n {
+        for (i, op) in spec.scripts[t].iter().enumerate() {
+            let g = got[t].get(i).cloned().unwrap_or_else(|| "missing".into());
+            w.log.update_str(&g);
+            let opn = format!("{op:?}").split([' ', '{']).next().unwrap_or("op").to_string();
+            if g.starts_with("panic:") {
+                w.violate("C17", "panic-under-concurrent-use", bk, &opn, "", format!("thread {t} op {i} {op:?}: {g}"));
+                continue;
+            }
+            if let Some(Some(a)) = alone[t].get(i) {
+                if *a != g {
+                    w.violate(
+                        "C17",
+                        "result-differs-from-sequential",
+                        bk,
+                        &opn,
+                        "",
+                        format!("thread {t} op {i} {op:?}: interleaved run gave {}, the same script alone on fresh keys gives {}", crate::world::truncate(&g, 90), crate::world::truncate(a, 90)),
+                    );
+                }
+            }
+            if let Some(Some(c)) = clean[t].get(i) {
+                if *c != g {
+                    w.violate(
+                        "C17",
+                        "result-depends-on-failed-operations",
+                        bk,
+                        &opn,
+                        "",
+                        format!("thread {t} op {i} {op:?}: gives {} after a history with failing operations and {} without them", crate::world::truncate(&g, 90), crate::world::truncate(c, 90)),
+                    );
+                }
+            }
+            // expected outcome classes
+            let must_fail = op.is_failing();
+            if must_fail && g.starts_with("ok:") && g != "ok:skip" {
+                w.violate("C17", "failing-operation-succeeded", bk, &opn, "", format!("thread {t} op {i} {op:?} -> {}", crate::world::truncate(&g, 90)));
+            }
+            if !must_fail && g.starts_with("err:") {
+                w.violate("C17", "operation-failed-under-concurrent-use", bk, &opn, "", format!("thread {t} op {i} {op:?} -> {g}"));
+            }
+        }
+    }
+    // the shared keys are unchanged
+    let after: Vec<Out<Vec<u8>>> = Kind::ALL.iter().map(|k| be.key_raw(*k, shared_keys.get(*k))).collect();
+    for (k, (b, a)) in Kind::ALL.iter().zip(before.iter().zip(after.iter())) {
+        let same = match (b, a) {
+            (Out::Ok(x), Out::Ok(y)) => x == y,
+            _ => false,
+        };
+        if !same {
+            w.violate("C17", "shared-key-changed", bk, &format!("expose-{}", k.name()), "", "the bytes of a shared key differ after the episode".into());
+        }
+    }
+    for (purpose, tok, key) in [(Purp::Local, &shared.tok_local, &shared_keys.local), (Purp::Public, &shared.tok_public, &shared_keys.public)] {
+        let r = be.unseal(purpose, key, tok, PayloadKind::Raw, FootKind::Unit, aad, &VSpec::None, false);
+        if !r.is_ok() {
+            w.violate("C17", "shared-key-unusable-after-episode", bk, &format!("unseal-{}", purpose.name()), "", format!("probe token no longer accepted: {}", r.class()));
+        }
+    }
+    // drop the shared keys on a fresh thread (created on one thread, used on others, dropped on a third)
+    let _ = std::thread::spawn(move || drop(shared_keys)).join();
 }
